@@ -28,7 +28,7 @@ PRIMS = {
     "mpz_set": ((0,), False), "mpz_set_ui": ((0,), False), "mpz_add": ((0,), False), "mpz_sub": ((0,), False),
     "mpz_mul": ((0,), False), "mpz_add_ui": ((0,), False), "mpz_sub_ui": ((0,), False), "mpz_mod": ((0,), False),
     "mpz_mul_2exp": ((0,), True), "mpz_fdiv_q_2exp": ((0,), False), "mpz_powm": ((0,), False), "mpz_powm_ui": ((0,), False),
-    "mpz_mod_ui": ((0,), False), "mpz_roinit_n": ((0,), False), "mpz_gcdext": ((0, 1, 2), False), "mpz_tdiv_qr": ((0, 1), False), "mpz_fdiv_qr": ((0, 1), False),
+    "mpz_mod_ui": ((0,), False), "mpz_roinit_n": ((0,), False), "mpz_tdiv_q_2exp": ((0,), False), "mpz_gcdext": ((0, 1, 2), False), "mpz_tdiv_qr": ((0, 1), False), "mpz_fdiv_qr": ((0, 1), False),
 }
 PRIMS.update({
     "ibz_set": ((0,), False), "ibz_copy": ((0,), False), "ibz_add": ((0,), False), "ibz_sub": ((0,), False),
@@ -42,6 +42,9 @@ INT_TYPES = {"int", "size_t", "mp_limb_t", "unsigned", "long"}
 
 # function -> (file, lean parameters, result kind, fuel annotations in order of the loops)
 FUNCS = [
+    ("ibz_div", "src/intbig/ref/generic/intbig.c", dict(kind="out", outs=["quotient", "remainder"], fuels=[])),
+    ("ibz_div_2exp", "src/intbig/ref/generic/intbig.c", dict(kind="out", outs=["quotient"], fuels=[])),
+    ("ibz_xgcd", "src/intbig/ref/generic/intbig.c", dict(kind="out", outs=["gcd", "u", "v"], fuels=[])),
     ("ibz_mod", "src/intbig/ref/generic/intbig.c", dict(kind="out", outs=["r"], fuels=[])),
     ("ibz_div_floor", "src/intbig/ref/generic/intbig.c", dict(kind="out", outs=["q", "r"], fuels=[])),
     ("ibz_two_adic", "src/intbig/ref/generic/intbig.c", dict(kind="ret", outs=[], fuels=[])),
@@ -351,7 +354,7 @@ class Emit:
                 return "(%s = 0)" % self.ex(e[2]) if prop else self.err("`!` outside a condition")
         if k == "call":
             if e[1] in PURE:
-                return "(%s %s)" % (e[1], " ".join(self.atom(a) for a in e[2]))
+                return "(%s %s)" % (self.prim(e[1]), " ".join(self.atom(a) for a in e[2]))
             self.err("call %s inside an expression" % e[1])
         if k == "bin":
             op = e[1]
@@ -456,6 +459,10 @@ class Emit:
     def fuel_of(self, s):
         return self.fuelmap[id(s)]
 
+    def prim(self, f):
+        """Lean name of a primitive: the ibz-layer wrappers used as primitives get a prefix (their translations keep the C name)"""
+        return "prim_" + f if f.startswith("ibz_") else f
+
     def literal_count(self, s):
         return s[1] == "mpz_mul_2exp" and s[2][2][0] == "num"
 
@@ -541,7 +548,7 @@ class Emit:
                     tmpv = "w%d" % j
                     return self.comp([("assign", tmpv, a), ("call", f, [args[i] for i in dests] + srcs[:j] + [("id", tmpv)] + srcs[j + 1:])] + rest, ind, k) \
                         if dests == (0,) else self.err("shift operand in a multi-destination call")
-            call = "%s %s" % (f, " ".join(self.atom(a) for a in srcs))
+            call = "%s %s" % (self.prim(f), " ".join(self.atom(a) for a in srcs))
             if partial and self.literal_count(s):
                 call = "mpz_mul_2exp_lit %s" % " ".join(self.atom(a) for a in srcs)
                 partial = False
@@ -632,7 +639,7 @@ class Emit:
     def res_call(self, dst, rhs, rest, ind, k):
         f, args = rhs[1], rhs[2]
         out = self.reg(args[0])
-        call = "%s %s" % (f, " ".join(self.atom(a) for a in args))
+        call = "%s %s" % (f if f in ("ibz_sqrt_mod_p",) else self.prim(f), " ".join(self.atom(a) for a in args))
         ok = self.comp(rest, ind + "  ", k)
         fail = self.comp(rest, ind + "  ", k)
         return ("%smatch %s with\n%s| Res.ub => Res.ub\n%s| Res.fail =>\n%s  let %s : Int := 0\n%s%s| Res.ok v =>\n%s  let %s : Int := 1\n%s  let %s : Int := v\n%s" % (
